@@ -41,6 +41,9 @@ class Interrupt(BaseException):
 
 EXC["Undocumented"] = Undocumented
 EXC["Interrupt"] = Interrupt
+# OSError-family exceptions that a backend lets through unmapped (C20: "any other kind of failure is never retried")
+EXC["ConnectionResetError"] = ConnectionResetError
+EXC["SSLCertVerificationError"] = __import__("ssl").SSLCertVerificationError
 
 
 class VirtualClock:
